@@ -531,8 +531,24 @@ func c17Requeuer(c *Check) {
 					}
 					okFallback := false
 					if atoi != nil && hasZero {
-						_, perr := NilEdges(atoi.Parent(), func(v ssa.Value) bool { return IsResultOf(v, atoi, 1) })
+						pok, perr := NilEdges(atoi.Parent(), func(v ssa.Value) bool { return IsResultOf(v, atoi, 1) })
 						okFallback = len(perr) > 0 && okHelper
+						// … the right way round: the 0 is chosen on the parse-error edge, the parsed value on the other
+						for _, in := range xsPhis(x, atoi.Parent()) {
+							for i, e := range in.Edges {
+								pred := in.Block().Preds[i]
+								term := pred.Instrs[len(pred.Instrs)-1]
+								viaErr := GuardedBy(atoi.Parent(), term, perr) || edgeIs(pred, in.Block(), perr)
+								viaOK := GuardedBy(atoi.Parent(), term, pok) || edgeIs(pred, in.Block(), pok)
+								if z, isZ := IntConst(e); isZ && z == 0 {
+									if !viaErr {
+										okFallback = false
+									}
+								} else if !viaOK && viaErr {
+									okFallback = false
+								}
+							}
+						}
 					}
 					c.Report(okFallback, P+".O3", "RETRIES-PARSE-ERROR-IS-ZERO", fn, s.Pos(), "Set(RetriesKey)", "a counter that does not parse (absent, malformed, out of range) counts as 0: the parse error is tested and replaced by 0")
 					okInc = okHelper && len(xs) > 0 && allOf(xs, func(v ssa.Value) bool {
@@ -977,6 +993,44 @@ func isRangeIndexOver(idx ssa.Value, s ssa.Value) bool {
 			if args, isL := IsBuiltinCall(cmp.Y, "len"); isL && len(args) == 1 && sameValue(args[0], s) {
 				return true
 			}
+		}
+	}
+	return false
+}
+
+// xsPhis lists the phi nodes (of fn) on the way from v back to its origins.
+func xsPhis(v ssa.Value, fn *ssa.Function) []*ssa.Phi {
+	var out []*ssa.Phi
+	seen := map[ssa.Value]bool{}
+	var walk func(v ssa.Value)
+	walk = func(v ssa.Value) {
+		if v == nil || seen[v] {
+			return
+		}
+		seen[v] = true
+		switch x := v.(type) {
+		case *ssa.Phi:
+			if x.Parent() == fn {
+				out = append(out, x)
+			}
+			for _, e := range x.Edges {
+				walk(e)
+			}
+		case *ssa.ChangeType:
+			walk(x.X)
+		case *ssa.Convert:
+			walk(x.X)
+		}
+	}
+	walk(v)
+	return out
+}
+
+// edgeIs: the CFG edge from→to is one of es.
+func edgeIs(from, to *ssa.BasicBlock, es []Edge) bool {
+	for _, e := range es {
+		if e.From == from && e.Idx < len(from.Succs) && from.Succs[e.Idx] == to {
+			return true
 		}
 	}
 	return false
